@@ -34,7 +34,7 @@ RECURSIVE CleanFrom(_, _, _)
 CleanFrom(segs, i, stack) ==
   IF i > Len(segs) THEN stack
   ELSE LET s == segs[i] IN
-       IF s = "." THEN CleanFrom(segs, i + 1, stack)
+       IF s = "." \/ s = "" THEN CleanFrom(segs, i + 1, stack)   \* "." and empty segments (repeated slashes) vanish
        ELSE IF s = ".." THEN CleanFrom(segs, i + 1, IF stack = <<>> THEN stack ELSE SubSeq(stack, 1, Len(stack) - 1))
        ELSE CleanFrom(segs, i + 1, Append(stack, LowerOf(s)))
 CleanPath(p) == CleanFrom(p.segs, 1, <<>>)       \* trailing slash and "" vs "/" vanish
